@@ -119,7 +119,9 @@ type Resp struct {
 	ParseOK   bool   `json:"parse_ok"`
 	ParseErr  string `json:"parse_err,omitempty"`
 	ParseUs   int64  `json:"parse_us,omitempty"`
-	ParseCPUUs int64 `json:"parse_cpu_us,omitempty"` // CPU time of the process during the parse
+	ParseCPUUs int64 `json:"parse_cpu_us,omitempty"` // CPU time of the parsing thread
+	ParseAllocBytes int64 `json:"parse_alloc_bytes,omitempty"`
+	ParseMallocs    int64 `json:"parse_mallocs,omitempty"`
 	CheckRan  bool   `json:"check_ran,omitempty"`
 	CheckOK   bool   `json:"check_ok,omitempty"`
 	CheckErr  string `json:"check_err,omitempty"`
